@@ -100,7 +100,7 @@ func loadProgram() (*symx.Program, []harnessSrc, error) {
 		RepoDir:     repoDir,
 		Patterns:    []string{"./pkg/document", "./pkg/style", "./pkg/markdown"},
 		Overlay:     overlay,
-		InterpPkgs:  []string{modPath},
+		InterpPkgs:  []string{modPath, "github.com/yuin/goldmark/ast", "github.com/yuin/goldmark/extension/ast", "github.com/yuin/goldmark/text"},
 		InterpFuncs: symx.DefaultInterpFuncs(),
 	}
 	p, err := symx.Load(cfg)
